@@ -317,3 +317,24 @@ def run_one(ctx: Any, seed: int, tier: str, replay: Optional[dict] = None) -> di
         "sim_time": 0,
         "samples": samples,
     }
+
+
+def shrink_candidates(rp: dict):
+    import copy
+
+    from vsim.shrink import list_candidates
+
+    for h in list_candidates(rp["history"]):
+        if h:
+            r = copy.deepcopy(rp)
+            r["history"] = h
+            yield "drop history ops", r
+    used = {op["input"] for op in rp["history"] if op["op"] == "parse"}
+    for i, inp in enumerate(rp["inputs"]):
+        if i in used:
+            lines = inp["text"].splitlines(keepends=True)
+            for keep in list_candidates(lines):
+                if keep:
+                    r = copy.deepcopy(rp)
+                    r["inputs"][i]["text"] = "".join(keep)
+                    yield "shrink input %d" % i, r
